@@ -109,7 +109,9 @@ def panel_transformers():
     L[-1]["unequal"] = True
     add("interpolator", lambda: TSInterpolator(7))
     add("tabularizer", lambda: Tabularizer())
+    L[-1]["ncol"] = 2          # two columns: the column-then-time order of the flattened output matters
     add("column_concat", lambda: ColumnConcatenator())
+    L[-1]["ncol"] = 2
     add("paa", lambda: PAA(num_intervals=5))
     add("paa3_len10", lambda: PAA(num_intervals=3))
     L[-1]["tp"] = 10        # 10 / 3: fractional frames whose rounding goes through the last-frame fallback
